@@ -14,14 +14,24 @@ use stun_rs::*;
 #[path = "attrval.rs"]
 mod av;
 
+/// the options are independent switches: the order in which the builder methods are called varies from call to call
+/// (all 24 orders), the resulting decoder must be the same
+static ORDER: std::sync::atomic::AtomicUsize = std::sync::atomic::AtomicUsize::new(0);
 fn decoder(k: bool, v: bool, u: bool, n: bool, key: &[u8]) -> MessageDecoder {
+    let mut steps: Vec<u8> = vec![0, 1, 2, 3];
+    let mut o = ORDER.fetch_add(1, std::sync::atomic::Ordering::Relaxed) % 24;
+    let mut order = vec![];
+    for m in (1..=4).rev() { order.push(steps.remove(o % m)); o /= m }
     let mut b = DecoderContextBuilder::default();
-    if k {
-        b = b.with_key(HMACKey::new_short_term(std::str::from_utf8(key).unwrap()).unwrap());
+    for s in order {
+        b = match s {
+            0 if k => b.with_key(HMACKey::new_short_term(std::str::from_utf8(key).unwrap()).unwrap()),
+            1 if v => b.with_validation(),
+            2 if u => b.with_unknown_data(),
+            3 if n => b.not_ignore(),
+            _ => b,
+        };
     }
-    if v { b = b.with_validation() }
-    if u { b = b.with_unknown_data() }
-    if n { b = b.not_ignore() }
     MessageDecoderBuilder::default().with_context(b.build()).build()
 }
 
